@@ -129,6 +129,55 @@ def run(ctx):
                 ctx.violate("urljoin(base, %r) = %r, urllib gives %r" % (s, j, j0), {"s": s, "impl": j, "urllib": j0}, signature="C18:urljoin")
         except ValueError:
             pass
+    # (a') the general URL/path model ZCV/Model/UrlPath.lean (quote / unquote / urljoin / urldefrag and the ZConfig.url
+    # wrappers) against urllib and ZConfig.url: the exhaustive strings above as references against a file: base, plus
+    # random path names over the quantifier's alphabet (space, '#', '%', '?', ';', '[', non-ASCII ...)
+    if ctx.driver_ok:
+        bases = ["file:///base/dir/x.conf", "file:///b%20c/d/", "file:///x"]
+        rnames = []
+        pool = NAMECHARS + ["#", "%", "?", "/", "..", ".", "%41", "%zz", "\u00e9", "\u4e2d", ":", "\\"]
+        for _ in range(6000 if ctx.thorough() else 1500):
+            rnames.append("".join(ctx.rng.choice(pool) for _ in range(ctx.rng.randint(0, 7))))
+        probes = [(bases[i % len(bases)], x) for i, x in enumerate(strs[:: (1 if ctx.thorough() else 7)] + rnames)]
+        ans2 = core.driver_batch([[Atom("urlpath"), b, x] for b, x in probes])
+        import urllib.request as UR
+        for (b, x), a in zip(probes, ans2):
+            ctx.evaluations += 1
+            real = {}
+            real["quote"] = UR.pathname2url(x)
+            real["unquote"] = UR.url2pathname(x)
+            real["pathToUrl"] = "file://" + UR.pathname2url(x)
+            real["urlToPath"] = UR.url2pathname(x[7:])
+            try:
+                real["join"] = urllib.parse.urljoin(b, x)
+            except ValueError:
+                real["join"] = None
+            try:
+                d0, f0 = urllib.parse.urldefrag(x)
+                real["defragUrl"], real["defragFrag"] = d0, f0
+            except ValueError:
+                real["defragUrl"] = real["defragFrag"] = None
+            try:
+                real["zjoin"] = zurl.urljoin(b, x)
+            except ValueError:
+                real["zjoin"] = None
+            real["znormalize"] = zurl.urlnormalize(x)
+            try:
+                real["zdefragUrl"] = zurl.urldefrag(x)[0]
+            except ValueError:
+                real["zdefragUrl"] = None
+            names_ = ["quote", "unquote", "pathToUrl", "urlToPath", "join", "defragUrl", "defragFrag", "zjoin", "znormalize", "zdefragUrl"]
+            model = dict(zip(names_, a[:10]))
+            jin, din = a[10] == "t", a[11] == "t"
+            for k in names_:
+                if real[k] is None:
+                    # Python raised: the model's domain predicate must not claim the input
+                    if (k in ("join", "zjoin") and jin) or (k in ("defragUrl", "defragFrag", "zdefragUrl") and din):
+                        ctx.disagree("urlpath:" + k, [b, x], "ValueError", "in-domain")
+                    continue
+                if model[k] != real[k]:
+                    ctx.disagree("urlpath:" + k, [b, x], real[k], model[k])
+        ctx.count("urlpath-probes", len(probes))
     # fragments are rejected by normalizeURL
     for s in ["file:///x/y.conf#frag", "http://h/x#a", "/tmp/zcv-nonexistent.conf#frag", "rel.conf#x"]:
         ctx.evaluations += 1
